@@ -216,10 +216,10 @@ func (e *engine) scheduleCase(c Case, r *vh.Rng, verboseOut bool) {
 
 func (e *engine) runSchedules() {
 	r := e.rng
-	nDocs, nMut := 150, 150 // per format
+	nDocs, nMut := 400, 400 // per format
 	maxLen := 4096
 	if e.thorough {
-		nDocs, nMut = 1500, 1500
+		nDocs, nMut = 4000, 4000
 		maxLen = 16384
 	}
 	nDocs, nMut = nDocs*e.scale, nMut*e.scale
